@@ -29,6 +29,18 @@ CHECKS = {
    technique="explicit-state BFS to fixpoint over real Sentence histories with a fresh-vs-reused differential oracle + exhaustive call-level thread interleavings under a baton scheduler",
    text="C08a: the same fixpoint search as C05 over the 36-operation alphabet; in every reachable state whose last successful update lies at most 3/4 operations back, the complete public observation (text, types, boundaries, scores, tags, tag count, tokens with spans/surfaces/tags, stored tag candidates where defined, both written forms, each as value-or-panic) must equal that of a freshly constructed sentence given the same input and the same operations; any panic of a legal operation on a reused sentence is a violation. Because the search closes under the alphabet, the verdict covers all finite histories over it. C08b: 2 threads x 4 calls and 3 threads x 3 calls (update_raw, predict, fill_tags) on shared predictors, every interleaving (70 resp. 1680 per assignment) executed on real OS threads that pass a baton, each thread's observation compared with its sequential run.",
    note="C08b scheduling points are API calls: the code has no lock, atomic or channel that loom/shuttle or this scheduler could pre-empt at, so mid-call interleavings are not explored (they could differ only through unsynchronised shared writes, which need unsafe/interior mutability that Predictor does not have; a compile-time Send+Sync assertion guards the type-level claim). If the schedule search finds violations the history search is skipped (shared state makes the parallel BFS non-replayable)."),
+ "C06": dict(level="exploration", section="3/C06",
+   technique="bounded-exhaustive enumeration of tag-model families x texts x boundary vectors vs. a naive per-token linear classifier",
+   text="Tag-model families T1 (all pairs of category shapes, 0-3 candidates per category, interleaving trained and single-candidate categories), T2 (all subsets of a 12-element tag n-gram pool: character and type n-grams, every relative position 0..W, the same n-gram at two offsets, n-grams shared between tokens, n-grams equal to / suffix of / extended by boundary patterns), T3 (models lacking a boundary scorer of one or both kinds, or having only tag n-grams), T4 (8, 9, 10 classes around the fixed/variable score-vector switch) for W in {1,2}/{1,2,3}; all texts over {a,b,hiragana} up to length 4/5; boundaries as predicted and every forced {N,W,U} vector; score storing on and off. tags(), n_tags(), Token::tags() and Token::tag_candidates() must equal the reference (ties -> first).",
+   note="Trusted: ref_tags in refmodel.rs; boundaries at fill time are read back from the sentence (their correctness is C01). Outside the bound: more than 3 tokens with models, tag n-grams longer than 3, texts longer than 5."),
+ "C07": dict(level="fault_enumeration", section="3/C07",
+   technique="exhaustive enumeration of truncation points, header corruptions and reader/writer fault positions on real model serialisations",
+   text="For each model of a pool (empty, varint-width extremes, long comments, multi-byte, sub-sampled C01/C06 families, resources/model.bin, the Tantivy test model): round trip through slice, reader and writer; readers delivering 1/2/7/all bytes per call; four tails after the model; EVERY proper prefix through read_slice and read; EVERY single-byte change of the 25 header bytes; a reader and a writer that fail with Err, Ok(0), Interrupted-once or a transient Err-once at EVERY byte position under three chunk sizes. All must yield Err (or, for Interrupted, succeed with the identical model): never a panic, never a different model, and bytes taken by a failing writer must be a prefix of the serialisation.",
+   note="Trusted: bincode's standard configuration, read_exact's retry of Interrupted. Byte identity is checked only where no hash map is encoded (models contain none)."),
+ "C14": dict(level="exploration", section="3/C14",
+   technique="bounded-exhaustive differential execution: original predictor vs. deserialise(serialise(predictor)) on all texts",
+   text="Every model of the (sub-sampled, step stated in evidence) C01 and C06 families plus zero / trailing-zero weight vectors, with and without tag prediction, is serialised, followed by one of four tails, deserialised, and both predictors are run on every text over a 4-letter alphabet up to length 4/5 with score storing off and on; the rest slice must equal the tail and the full public observation (scores, boundaries, tags, tag candidates, tokens, written forms) must be identical.",
+   note="Scope is self-produced bytes (the API is unsafe for foreign bytes). Bytes are never compared across runs (hash-map order). daachorse (de)serialisation trusted."),
 }
 
 PENDING_REASON = "check not built yet in this round (planned in DESIGN.md section 3); no claim is made"
